@@ -343,7 +343,10 @@ class JunctionComparator:
     def classify_single_intron_alternation(self, read_region, read_junctions, isoform_region, isoform_junctions,
                                            read_cpos, isoform_cpos, intron_length_is_similar, read_introns_known):
         if intron_length_is_similar:
-            if abs(isoform_junctions[isoform_cpos][0] - read_junctions[read_cpos][0]) <= self.params.max_intron_shift:
+            # the intron is shifted as a whole: neither of its sites is further away than the allowed shift
+            # (the two distances differ by the length difference; taking one side only makes the call depend on the strand)
+            if max(abs(isoform_junctions[isoform_cpos][0] - read_junctions[read_cpos][0]),
+                   abs(isoform_junctions[isoform_cpos][1] - read_junctions[read_cpos][1])) <= self.params.max_intron_shift:
                 event = MatchEventSubtype.intron_shift
             elif read_introns_known:
                 event = MatchEventSubtype.intron_migration
